@@ -67,6 +67,14 @@ Theorem C01_orefa_step_read_dir : forall (o : ofs) (s : fsys) (sv : sview) (ps :
   osim (proj_res Linux (o_read_dir o (abs_path (ps ++ [c])))) (go_read_dir s sv (abs_path (ps ++ [c]))).
 Proof. intros o s sv ps c. exact (orefa_step_read_dir o s sv ps c). Qed.
 
+(* WriteFile (and so OpenFile(O_WRONLY|O_CREATE|O_TRUNC) + Write) of a name that does not exist: creation, content, the errors *)
+Theorem C01_orefa_step_write_file_new : forall (o : ofs) (s : fsys) (sv : sview) (ps : list str) (c : str) (data : list N) (perm : N),
+  ohyps s sv -> orel o s sv -> gcs (ps ++ [c]) -> length (ps ++ [c]) < WALK_FUEL ->
+  twalk (f_heap s) (v_root (sv_view sv)) (ps ++ [c]) = None ->
+  proj_res Linux (snd (o_write_file o (abs_path (ps ++ [c])) data perm)) = snd (go_write_file s sv (abs_path (ps ++ [c])) data perm)
+  /\ orel (fst (o_write_file o (abs_path (ps ++ [c])) data perm)) (fst (go_write_file s sv (abs_path (ps ++ [c])) data perm)) sv.
+Proof. intros o s sv ps c data perm. exact (orefa_step_write_file_new o s sv ps c data perm). Qed.
+
 (* non-vacuity: the initial world (/home, /root, /tmp) satisfies the hypotheses; Mkdir("/tmp/a") succeeds on both
    sides, Stat("/tmp/a") afterwards finds the directory on both sides *)
 Example C01_orefa_example :
@@ -103,3 +111,14 @@ Proof.
   split; [unfold WALK_FUEL; cbn [length app]; lia|].
   repeat (split; [vm_compute; reflexivity|]). vm_compute. reflexivity.
 Qed.
+
+(* non-vacuity for WriteFile of a new name: "/tmp/a" does not exist in the initial world; both sides create it *)
+Example C01_orefa_example_write :
+  let w := spec_init 18 in
+  let a := [97%N] in let tmp := [116; 109; 112]%N in
+  twalk (f_heap (sw_fs w)) (v_root (sv_view (sw_sv w))) ([tmp] ++ [a]) = None
+  /\ snd (go_write_file (sw_fs w) (sw_sv w) (abs_path ([tmp] ++ [a])) [120%N] 420) = SOk
+  /\ snd (o_write_file (ow_fs (oworld_of_sworld w)) (abs_path ([tmp] ++ [a])) [120%N] 420) = ROk
+  /\ proj_res Linux (o_read_file (fst (o_write_file (ow_fs (oworld_of_sworld w)) (abs_path ([tmp] ++ [a])) [120%N] 420)) (abs_path ([tmp] ++ [a])))
+     = SBytes [120%N].
+Proof. vm_compute. repeat split. Qed.
